@@ -58,7 +58,7 @@ struct Exec {
     std::vector<long> pending_free_checks; void check_pending_frees();
     bool nt_last_illegal = false; long fd_bytes[8];
     std::deque<UBox> boxes;
-    double tick_armed_at = 0; long ticks_seen = 0; bool tick_ever = false; long tick_grace = 1; double prev_dispatch_began = 0; int last_eagain_step = -1; int replacing_slot = -1;
+    double tick_armed_at = 0; long ticks_seen = 0; bool tick_ever = false; long tick_grace = 1; double prev_dispatch_began = 0; int last_eagain_step = -1; int replacing_slot = -1; long tick_base = 0; std::map<long, std::set<long>> sub_tokens; std::map<long, int> token_prio; bool retire_oneshot_by_token(Inst *x, long token); void tick_rearm(double armed_at);
     bool nt_c01_accept = false, nt_c01_reject = false, nt_c02_shape = false, nt_c02_delivery = false;
     static void payload_free_hook(void *p);
     int model_send(Inst *S, Inst *direct, bool has_topic, const std::string &topic, long payload);
@@ -80,7 +80,7 @@ struct Exec {
     void on_lib_close(int fd, int r, int e);
     // is a poison pill the first required pending entry of y?
     bool pill_is_next(Inst *y) { for (auto &m : y->mailbox) { if (m.pill) return true; if (!m.optional) return false; } return false; }
-    bool maybe_fired(Inst *y, const Sub &s) { if (!s.oneshot) return false; if (s.maybe_gone) return true; for (auto &m : y->mailbox) for (auto &v : m.via) if (v.sub_topic == s.topic) return true; return false; }
+    bool maybe_fired(Inst *y, const Sub &s) { if (!s.oneshot) return false; if (s.maybe_gone) return true; /* tick notifications are not announced to the model: a one-shot subscription they match may be consumed at any time */ if (tick_ever && (s.topic == M_PS_CTX_TICK || (s.re_ok && regexec(&s.re, M_PS_CTX_TICK, 0, nullptr, 0) == 0))) return true; for (auto &m : y->mailbox) for (auto &v : m.via) if (v.sub_topic == s.topic) return true; return false; }
     void close_harness_fds();
     std::set<int> open_fds();
 
@@ -125,7 +125,7 @@ struct Exec {
 
     int run_script(Inst *x, int kind);
     void do_op(const Op &op, bool top);
-    void do_dispatch_once(int &ret);
+    void do_dispatch_once(int &ret, int fault = 0);
     void probe(const char *where);
     void on_cb_begin(Inst *x, int kind, const m_queue_t *evts, int handler_id);
     int on_cb_end(Inst *x, int kind);
